@@ -24,7 +24,7 @@ RULE = (
     "and frame condition on written files. distinct = distinct (variant multiset, A in subdir?, B in subdir?, extension "
     "spelling) signatures; non-trivial = >= 1 link to A and >= 1 near-miss link present."
 )
-ASSUMPTIONS = ["not judged: B in a directory that does not exist, B already existing, names containing dots other than .zo"]
+ASSUMPTIONS = ["not judged: B in a directory that does not exist, B already existing; A may be a page (.zo), a template (.zot) or a query page (.zoq) — links to the latter two carry the extension"]
 REQUIRED_COUNTERS = ["enter.run_file_rename", "links.rewritten"]
 MIN_JUDGED = {"quick": 2000, "thorough": 30000}
 LINK_RE = re.compile(r"\[\[([^\[\]\n]*?)\]\]")
@@ -101,24 +101,36 @@ def run_case(acc: Acc, seed: int, idx: int) -> None:
                 used.append("unterminated")
             if rng.random() < 0.1:
                 words.append(a)  # plain mention, not a link
+            if rng.random() < 0.25:
+                # links to a template / query page are written WITH the extension
+                words.append(rng.choice(["[[tmpl/day.zot]]", "[[tmpl/day.zot#top]]", "[[tmpl/day]]", "[[tmpl/day.zot2]]", "[[zoq/q.zoq]]", "[[tmpl/day.zo]]", "([[tmpl/day.zot]])"]))
             lines.append(" ".join(words))
         files[rel + ".zo"] = "\n".join(lines) + "\n"
-    files["tmpl/day.zot"] = "# Template\n#\n# ^ = [[template]]\n\n## {{ name }}\n##\n## ^ = [[" + a + "]]\n## < = [[" + a + "#top]]\n## > = [[" + a + "2]]\n\no todo from template [[" + rng.choice(vs)[1] + "]]\n"
+    files["tmpl/day.zot"] = "# Template\n#\n# ^ = [[template]]\n# self = [[tmpl/day.zot]]\n\n## {{ name }}\n##\n## ^ = [[" + a + "]]\n## < = [[" + a + "#top]]\n## > = [[" + a + "2]]\n\no todo from template [[" + rng.choice(vs)[1] + "]]\n"
     files["zoq/q.zoq"] = "# S note W [[" + a + "]] G none\n#\n# SAVED QUERY GENERATED ON 2031-03-14 AT 12:00:00.\n\n- 240101#Zz result [[" + a + "]] and [[" + rng.choice(vs)[1] + "]]\n"
     used += ["exact", "anchor", "longer"]
     for rel, text in files.items():
         f = root / rel
         f.parent.mkdir(parents=True, exist_ok=True)
         f.write_text(text)
-    for step in range(2):
+    fname = lambda x: x if "." in x.rsplit("/", 1)[-1] else x + ".zo"
+    for step in range(3):
+        if step == 2:
+            # renaming a template (or a query page): its links carry the extension
+            if rng.random() < 0.5:
+                a, b = "tmpl/day.zot", rng.choice(["tmpl/daily.zot", "tmpl/day_log.zot", "day.zot"])
+            else:
+                a, b = "zoq/q.zoq", rng.choice(["zoq/open.zoq", "zoq/q2.zoq"])
+            if not (root / a).exists():
+                break
         if step == 1:
             # a second rename in the same directory: B -> C (the links were retargeted to B by the first one)
             a, b = b, (b.rsplit("/", 1)[0] + "/" if "/" in b and rng.random() < 0.5 else "") + rng.choice(["third", "c_name", "renamed2"])
             if (root / (b + ".zo")).exists():
                 break
         before = {str(f.relative_to(root)): f.read_bytes() for f in sorted(root.rglob("*")) if f.is_file()}
-        a_arg = a + (".zo" if rng.random() < 0.4 else "")
-        b_arg = b + (".zo" if rng.random() < 0.4 else "")
+        a_arg = a + (".zo" if (rng.random() < 0.4 and fname(a) != a) else "")
+        b_arg = b + (".zo" if (rng.random() < 0.4 and fname(b) != b) else "")
         case = {"seed": seed, "idx": idx, "a": a_arg, "b": b_arg, "files": files}
         TRACER.start(root)
         r = db.cli(root, "file", "rename", a_arg, b_arg)
@@ -128,15 +140,15 @@ def run_case(acc: Acc, seed: int, idx: int) -> None:
             acc.violation(f"`file rename {a_arg} {b_arg}` failed rc={r.rc} {r.err[-300:]}", case, cls="file rename fails")
             break
         after = {str(f.relative_to(root)): f.read_bytes() for f in sorted(root.rglob("*")) if f.is_file()}
-        if a + ".zo" in after:
-            acc.violation(f"{a}.zo still exists after the rename", case, cls="source page still exists")
-        if b + ".zo" not in after:
-            acc.violation(f"{b}.zo does not exist after the rename", case, cls="destination page missing")
+        if fname(a) in after:
+            acc.violation(f"{fname(a)} still exists after the rename", case, cls="source page still exists")
+        if fname(b) not in after:
+            acc.violation(f"{fname(b)} does not exist after the rename", case, cls="destination page missing")
             break
         n_total = 0
         should_write = set()
         for rel, old in before.items():
-            new_rel = b + ".zo" if rel == a + ".zo" else rel
+            new_rel = fname(b) if rel == fname(a) else rel
             exp, n = expected_text(old.decode(), a, b)
             n_total += n
             if n:
